@@ -10,8 +10,8 @@ import time
 import traceback
 from collections import Counter
 
-from . import env
-from .core import HarnessError, Stats, Violation, dumps, generic_simplify, run_rng, shrink
+from . import core, env
+from .core import HarnessError, RunTimeout, Stats, Violation, Watchdog, dumps, generic_simplify, run_rng, shrink
 
 PROPS = {
     "C01": "sim.props.c01",
@@ -32,6 +32,7 @@ PROPS = {
 }
 
 STATE_CAP = 2_000_000
+RUN_CPU_LIMIT_S = 60
 CHUNK_TIMEOUT_S = 600
 
 
@@ -46,16 +47,35 @@ def one_run(mod, master, i, want_sample=False):
     rng = run_rng(master, mod.ID, i)
     st = Stats()
     vio = None
+    last = {}
+    orig = mod.execute
+
+    def tracking_execute(case, *a, **kw):
+        last["case"] = case
+        return orig(case, *a, **kw)
+
+    mod.execute = tracking_execute
     try:
-        mod.explore(rng, st)
+        with Watchdog(RUN_CPU_LIMIT_S):
+            mod.explore(rng, st)
     except Violation as v:
         vio = v
+    except RunTimeout:
+        vio = Violation(
+            "call-did-not-return",
+            f"a simulated execution used more than {RUN_CPU_LIMIT_S} s of CPU time (normal: milliseconds): some library call does not return",
+            event=st.events,
+            case=last.get("case"),
+        )
+    finally:
+        mod.execute = orig
     return st, vio
 
 
 def _chunk(args):
-    prop, master, lo, hi, n_samples = args
+    prop, master, lo, hi, n_samples, tier = args
     faulthandler.dump_traceback_later(CHUNK_TIMEOUT_S, exit=True)
+    core.TIER = tier
     try:
         mod = load(prop)
         faults = Counter()
@@ -177,11 +197,12 @@ def write_replay(prop, master, vio, digest_hex=None):
 def run_property(prop, tier, master, runs=None, workers=None, out=sys.stdout):
     mod = load(prop)
     t0 = time.time()
+    core.TIER = tier
     nruns = runs if runs is not None else mod.RUNS[tier]
     workers = workers or min(16, os.cpu_count() or 1)
     per = max(1, min(250, nruns // (workers * 6) or 1))
     chunks = [
-        (prop, master, lo, min(nruns, lo + per), 1) for lo in range(0, nruns, per)
+        (prop, master, lo, min(nruns, lo + per), 1, tier) for lo in range(0, nruns, per)
     ]
     results = []
     if workers == 1:
@@ -340,7 +361,12 @@ def replay(path, out=sys.stdout):
     prop = rep["property"]
     mod = load(prop)
     try:
-        mod.execute(rep["case"], Stats())
+        with Watchdog(RUN_CPU_LIMIT_S):
+            mod.execute(rep["case"], Stats())
+    except RunTimeout:
+        print(f"VIOLATION property={prop} replay={path}", file=out)
+        print("  oracle=call-did-not-return: the trace does not finish within the CPU limit", file=out)
+        return 1
     except Violation as v:
         same = v.oracle == rep["oracle"]
         print(f"VIOLATION property={prop} replay={path}", file=out)
